@@ -1,1 +1,65 @@
-// Verification accessors for src/hdlc_deframer.rs (child module of it; included under cfg(rustradio_verif)).
+// Verification accessors for src/hdlc_deframer.rs (child module; cfg(rustradio_verif)).
+use super::*;
+
+pub fn calc_crc(d: &[u8]) -> u16 {
+    super::calc_crc(d)
+}
+pub fn bits2byte(d: &[u8]) -> u8 {
+    super::bits2byte(d)
+}
+pub fn find_right_crc(data: &[u8], got: u16, fix: bool) -> (Option<Vec<u8>>, u16, bool) {
+    super::find_right_crc(data, got, fix)
+}
+
+pub const M_UNSYNCED: u8 = 0;
+pub const M_SYNCED: u8 = 1;
+pub const M_FINAL: u8 = 2;
+
+/// Put the deframer into an arbitrary state.
+pub fn set_state(d: &mut HdlcDeframer, mode: u8, small: u8, bits: Vec<u8>) {
+    let old = std::mem::replace(
+        &mut d.state,
+        match mode {
+            M_UNSYNCED => State::Unsynced(small),
+            M_SYNCED => State::Synced((small, bits)),
+            _ => State::FinalCheck(bits),
+        },
+    );
+    std::mem::forget(old);
+}
+
+/// (mode, small value, number of collected bits)
+pub fn state(d: &HdlcDeframer) -> (u8, u8, usize) {
+    match &d.state {
+        State::Unsynced(v) => (M_UNSYNCED, *v, 0),
+        State::Synced((o, b)) => (M_SYNCED, *o, b.len()),
+        State::FinalCheck(b) => (M_FINAL, 0, b.len()),
+    }
+}
+/// i-th collected bit.
+pub fn state_bit(d: &HdlcDeframer, i: usize) -> u8 {
+    match &d.state {
+        State::Unsynced(_) => 0,
+        State::Synced((_, b)) => b[i],
+        State::FinalCheck(b) => b[i],
+    }
+}
+pub fn counters(d: &HdlcDeframer) -> (usize, usize, usize) {
+    (d.decoded, d.crc_error, d.bitfixed)
+}
+
+/// One real state-machine step (what work() does per input bit).
+pub fn step(d: &mut HdlcDeframer, bit: u8) -> bool {
+    match d.update_state(bit, d.stream_pos) {
+        Ok(s) => {
+            let old = std::mem::replace(&mut d.state, s);
+            std::mem::forget(old);
+            d.stream_pos += 1;
+            true
+        }
+        Err(e) => {
+            std::mem::forget(e);
+            false
+        }
+    }
+}
